@@ -23,8 +23,9 @@ VARIABLES l, viol, poisoned,
           mE,                  \* C03 ghost: latest expiry among the manifests that arrived for chunk c (a pending fetch keeps its own manifest)
           owed, notified, slack, \* C05 ghost: expiry notifications owed / seen / tolerated extras
           pproj,               \* projection logged by the previous event
+          tol,                 \* tolerance in ms: 0 under the virtual clock; > 0 for traces of real-time executions (hook time vs the instant the code read the clock)
           nchecked
-vars == <<l, viol, poisoned, now, cmin, cmax, rec, held, bound, mE, owed, notified, slack, pproj, nchecked>>
+vars == <<l, viol, poisoned, now, cmin, cmax, rec, held, bound, mE, owed, notified, slack, pproj, tol, nchecked>>
 
 EmptyProj == [chunks |-> <<>>, listed |-> <<>>, cache |-> <<>>, shard |-> <<>>, loc |-> <<>>, pend |-> <<>>, plans |-> <<>>]
 Zero == [c \in Ids |-> 0]
@@ -32,7 +33,7 @@ Zero == [c \in Ids |-> 0]
 Init == /\ l = 1 /\ viol = <<>> /\ poisoned = FALSE
         /\ now = 0 /\ cmin = 0 /\ cmax = 0
         /\ rec = [c \in Ids |-> NoRec] /\ held = {} /\ bound = [c \in Ids |-> NoBound] /\ mE = [c \in Ids |-> NoBound]
-        /\ owed = Zero /\ notified = Zero /\ slack = Zero /\ pproj = EmptyProj /\ nchecked = 0
+        /\ owed = Zero /\ notified = Zero /\ slack = Zero /\ pproj = EmptyProj /\ tol = 0 /\ nchecked = 0
 
 \* ---- projection accessors (JSON arrays -> sets of tuples) ---------------------------------
 P2(x)  == {<<x[i][1], x[i][2]>> : i \in DOMAIN Arr(x)}
@@ -49,7 +50,8 @@ SameProj(p, q) == /\ Chunks(p) = Chunks(q) /\ Cache(p) = Cache(q) /\ Shard(p) = 
 \* [C03] every dated item the node holds for chunk c expires no later than bound[c]
 \* (chunk records, shard records, provider contacts, pending fetches; the cached manifest's
 \* own lifetime is judged at cleanup time, see CleanupClauses)
-DerivedClauses(p, bd) ==
+DerivedClauses(p, bd0) ==
+    LET bd == [c \in Ids |-> bd0[c] + tol] IN
     (IF \A x \in Chunks(p) : x[1] \in Ids => x[2] <= bd[x[1]] THEN {} ELSE {"C03.derived-outlives-manifest/chunk"})
     \cup (IF \A x \in Shard(p) : x[1] \in Ids => x[2] <= bd[x[1]] THEN {} ELSE {"C03.derived-outlives-manifest/key-shares"})
     \cup (IF \A x \in Holders(p) : x[1] \in Ids => x[3] <= bd[x[1]] THEN {} ELSE {"C03.derived-outlives-manifest/provider-contact"})
@@ -57,7 +59,8 @@ DerivedClauses(p, bd) ==
 
 \* [C05] after a cleanup tick at T nothing that expired by T is left; r is the ghost BEFORE the tick, so
 \* r[c].live /\ r[c].dl <= tc says: local chunk c expires at this tick (its own announcement must be withdrawn)
-CleanupClauses(p, tc, bd, r) ==
+CleanupClauses(p, tc0, bd, r) ==
+    LET tc == tc0 - tol IN
     (IF \A x \in Chunks(p) : x[2] > tc THEN {} ELSE {"C05.expired-after-cleanup/chunk"})
     \cup (IF \A x \in Shard(p) : x[2] > tc THEN {} ELSE {"C05.expired-after-cleanup/key-shares"})
     \cup (IF \A x \in Holders(p) : x[3] > tc THEN {} ELSE {"C05.expired-after-cleanup/provider-contact"})
@@ -73,7 +76,7 @@ Common(e, bad, r2, h2, bd2, ow2, nt2, sl2) ==
     /\ pproj' = e.proj
     /\ viol' = IF bad = {} THEN viol ELSE Append(viol, Fail(l, bad, [op |-> e.op, t |-> e.t]))
     /\ poisoned' = (bad # {}) /\ nchecked' = nchecked + 1
-    /\ UNCHANGED <<cmin, cmax>>
+    /\ UNCHANGED <<cmin, cmax, tol>>
 
 Max(a, b) == IF a > b THEN a ELSE b
 Min(a, b) == IF a < b THEN a ELSE b
@@ -87,18 +90,18 @@ Refetch(bd, t, p, q) ==
 Step(e) ==
   CASE e.op = "reset" ->
         LET bad == IF ConfigWindowOk(e) THEN {} ELSE {"C02.config-window"} IN
-        /\ now' = e.t /\ cmin' = e.min /\ cmax' = e.max
+        /\ now' = e.t /\ cmin' = e.min /\ cmax' = e.max /\ tol' = Fld(e, "tol", 0)
         /\ rec' = [c \in Ids |-> NoRec] /\ held' = {} /\ bound' = [c \in Ids |-> NoBound] /\ mE' = [c \in Ids |-> NoBound]
         /\ owed' = Zero /\ notified' = Zero /\ slack' = Zero /\ pproj' = e.proj
         /\ viol' = IF bad = {} THEN viol ELSE Append(viol, Fail(l, bad, e))
         /\ poisoned' = (bad # {}) /\ nchecked' = nchecked + 1
-    [] poisoned -> UNCHANGED <<viol, poisoned, now, cmin, cmax, rec, held, bound, mE, owed, notified, slack, pproj, nchecked>>
+    [] poisoned -> UNCHANGED <<viol, poisoned, now, cmin, cmax, rec, held, bound, mE, owed, notified, slack, pproj, tol, nchecked>>
     [] e.op = "store" ->
         LET c == e.c
             r2 == [rec EXCEPT ![c] = [live |-> TRUE, b |-> e.b, dl |-> e.dl, inst |-> 0]]
             sl2 == IF rec[c].live /\ rec[c].dl <= e.t THEN [slack EXCEPT ![c] = @ + 1] ELSE slack
             bd2 == [bound EXCEPT ![c] = Max(@, Max(Max(e.dl, e.mexp), Max(e.sexp, e.aexp)))]
-            bad == StoreLifetimeClauses(e, cmin, cmax)
+            bad == StoreLifetimeClauses(e, cmin - tol, cmax + tol)
                    \cup (IF e.dl > e.t THEN {} ELSE {"C01.put-deadline"})
                    \cup DerivedClauses(e.proj, bd2)
         IN Common(e, bad, r2, held \cup {c}, bd2, owed, notified, sl2)
@@ -124,19 +127,19 @@ Step(e) ==
     [] e.op = "manifest" ->
         \* a manifest with expiry E arrives (ingest / announce / request)
         LET c == e.c  E == e.exp
-            tooOld == ManifestMustBeRejected(E, e.t, cmin)
+            tooOld == ManifestMustBeRejected(E, e.t - tol, cmin - 2 * tol)
             bd1 == IF tooOld THEN bound ELSE [bound EXCEPT ![c] = Max(@, Min(E, e.t + cmax))]
             bd2 == Refetch(bd1, e.t, pproj, e.proj)
-            bad == (IF tooOld /\ ~SameProj(e.proj, pproj) THEN {"C03.expired-manifest-changed-state/" \o e.via} ELSE {})
+            bad == (IF tooOld /\ tol = 0 /\ ~SameProj(e.proj, pproj) THEN {"C03.expired-manifest-changed-state/" \o e.via} ELSE {})
                    \cup DerivedClauses(e.proj, bd2)
         IN Common(e, bad, rec, held, bd2, owed, notified, slack)
     [] e.op = "replica" ->
         LET c == e.c  E == e.exp
-            tooOld == ManifestMustBeRejected(E, e.t, cmin)
+            tooOld == ManifestMustBeRejected(E, e.t - tol, cmin - 2 * tol)
             bd2 == IF tooOld THEN bound ELSE [bound EXCEPT ![c] = Max(@, Min(E, e.t + cmax))]
             r2 == IF e.ok THEN [rec EXCEPT ![c] = [live |-> TRUE, b |-> e.b, dl |-> e.dl, inst |-> 0]] ELSE rec
             sl2 == IF e.ok /\ rec[c].live /\ rec[c].dl <= e.t THEN [slack EXCEPT ![c] = @ + 1] ELSE slack
-            bad == (IF tooOld /\ (e.ok \/ ~SameProj(e.proj, pproj)) THEN {"C03.expired-manifest-changed-state/" \o e.via} ELSE {})
+            bad == (IF tooOld /\ (e.ok \/ (tol = 0 /\ ~SameProj(e.proj, pproj))) THEN {"C03.expired-manifest-changed-state/" \o e.via} ELSE {})
                    \cup (IF e.ok /\ e.corrupt # 0 THEN {"C11.tampered-replica-accepted"} ELSE {})
                    \cup (IF e.ok /\ e.via = "recv" /\ e.cls # e.b THEN {"C11.replica-roundtrip-mismatch"} ELSE {})
                    \cup (IF ~e.ok /\ e.corrupt # 0 /\ ~SameProj(e.proj, pproj) THEN {"C11.tampered-replica-changed-state"} ELSE {})
@@ -149,7 +152,7 @@ Step(e) ==
             ow2 == IF e.cleaned THEN [c \in Ids |-> IF c \in expd THEN owed[c] + 1 ELSE owed[c]] ELSE owed
             bd2 == Refetch(bound, tc, pproj, e.proj)
             bad == (IF e.cleaned THEN CleanupClauses(e.proj, tc, bd2, rec) ELSE {})
-                   \cup (IF \A x \in Pend(e.proj) : x[2] > tc THEN {} ELSE {"C03.pending-fetch-outlives-manifest"})   \* every tick drops them
+                   \cup (IF \A x \in Pend(e.proj) : x[2] > tc - tol THEN {} ELSE {"C03.pending-fetch-outlives-manifest"})   \* every tick drops them
                    \cup (IF e.cleaned /\ (e.a_local + e.a_loc + e.a_contacts > 0) THEN {"C05.audit-reports-expired-after-cleanup"} ELSE {})
                    \cup DerivedClauses(e.proj, bd2)
         IN Common(e, bad, r2, held, bd2, ow2, notified, slack)
@@ -161,7 +164,7 @@ Step(e) ==
                    \cup (IF \A i \in DOMAIN ids : ids[i] \in Ids THEN {} ELSE {"C05.unknown-chunk-reported"})
         IN Common(e, bad, rec, held, bound, owed, nt2, slack)
     [] e.op = "adv" -> Common(e, DerivedClauses(e.proj, bound), rec, held, bound, owed, notified, slack)
-    [] OTHER -> UNCHANGED <<viol, poisoned, now, cmin, cmax, rec, held, bound, mE, owed, notified, slack, pproj, nchecked>>
+    [] OTHER -> UNCHANGED <<viol, poisoned, now, cmin, cmax, rec, held, bound, mE, owed, notified, slack, pproj, tol, nchecked>>
 
 Next == l <= Len(T) /\ l' = l + 1 /\ Step(T[l])
 Spec == Init /\ [][Next]_vars
